@@ -15,6 +15,11 @@ def pure(ctx, rule, qn, ps):
 
 
 def check(ctx):
+    ctx.sub(s1_membership)
+    s2_s3(ctx)
+
+
+def s1_membership(ctx):
     # ---- S1 membership filter
     qn = 'DynamicUniverse.get_assets'
     fn = ctx.fn(qn)
@@ -98,6 +103,9 @@ def check(ctx):
     ws = writers_of_attr(ctx.M, 'asset_list')
     ctx.require(all(w.fn.qn == 'StaticUniverse.__init__' for w in ws) and ws, 'C19.S1', 'the static list is set only by the constructor (and never mutated in the package)',
                 ws[0].where if ws else None, [w.fn.qn + ':' + w.how for w in ws], key='C19.S1|asset_list')
+
+
+def s2_s3(ctx):
     # ---- S2 universe-driven alpha model
     qn = 'SingleSignalAlphaModel.__call__'
     fn = ctx.fn(qn)
